@@ -679,6 +679,11 @@ class Connection(object):
         return str(obj)
 
     def _handle_cmp(self, obj, other, op='__cmp__'):  # request handler
+        if getattr(type(obj), "_rpyc_getattr", None) is not None:
+            # an object that defines its own attribute hook decides here too, exactly as for every other access by
+            # name (restricted views, services with a hook): the hook hands back obj's attribute, already bound.
+            # Looking `op` up on type(obj) instead would ask the METACLASS for the hook and so bypass the object's.
+            return self._access_attr(obj, op, (), "_rpyc_getattr", "allow_getattr", getattr)(other)
         # cmp() might enter recursive resonance... so use the underlying type and return cmp(obj, other)
         try:
             return self._access_attr(type(obj), op, (), "_rpyc_getattr", "allow_getattr", getattr)(obj, other)
